@@ -137,9 +137,8 @@ def classify_c01(step, detail, root):
     if step['kind'] == 'arg' and ':' in code and (step.get('gptype') == 'Lambda' or step['ptype'] == 'Lambda'):
         return 'annotated-arg-into-lambda-arguments'
     if step['form'] == 'fst' and isinstance(code, str) and code.lstrip('(').startswith('yield') and \
-            step['op'] in ('insert', 'append', 'prepend', 'extend', 'prextend', 'put_slice', 'put_slice_one', 'setslice',
-                           'view_insert', 'view_append') and step['ptype'] in ('Call', 'ClassDef'):
-        return 'yield-fst-into-arglikes-unparenthesized'
+            step['op'] in ('extend', 'prextend', 'put_slice', 'setslice') and step['ptype'] in ('Call', 'ClassDef'):
+        return 'yield-fst-coerced-to-arglike-sequence-unparenthesized'   # the one-element entry points (insert/append/prepend/put_slice(one=True)/view insert) were repaired
     return f'desync:{detail}:{step["op"]}:{step["kind"]}'
 
 
